@@ -7,10 +7,10 @@ CONFIG = {
     "design_ref": "4.10",
     "technique": "Lean 4 proof over an ownership model (heap of allocations, owning / borrowing string fields, term index, stores, clone/drop/move/swap/take) whose `clone` is the one the source defines (regenerated from inmem/src/index.rs); cfg-guarded pointer-provenance audit hook + differential over histories on all ten store types",
     "level_text": "Proof (all histories, any number of stores, all terms incl. owned quoted triples, every index width) ABOUT THE OWNERSHIP MODEL lean/SophiaModel/Model/Heap.lean (allocations never reused; MownStr = owning or borrowing pointer; SimpleTermIndex = keys owning their buffers + i2t entries borrowing from them via the transmute of ensure_index; growth/moves/swap/take = identity on buffers): with the manual `impl Clone` (clone t2i, rebuild i2t from the NEW keys) every operation preserves `every borrowed string of a store's i2t points into a buffer owned by a key of the same store` together with unique ownership and liveness of owned buffers, hence after ANY history interleaving insert / remove / clone / clone_from / drop (original or clone first) / swap / move / Box / mem::take / growth no read of a live store touches released memory and nothing is released twice (no_dangling); a clone reads Term::eq-equal to its original at clone time, element by element, and afterwards no operation that does not name a store changes what that store returns (clone_independent); `unwrap_unchecked` in inmem/src/dataset/_iter.rs only sees `Some` (corollary of C01's invariant I3); `ensure_owned`'s transmute returns a string that owns a fresh buffer. For `#[derive(Clone)]` — what the tree has until notes/fixes/C10-manual-clone.diff is applied — the same statement is REFUTED in Lean by a kernel-checked 3-step history (derive_clone_dangles). Which of the two the source has is regenerated on every run (Gen/CloneKind.lean, fail-closed on any other shape of index.rs / _simple.rs). What is NOT proof: that rustc/std/mownstr behave as the ownership model says, and undefined behaviour in general is outside any model; the tie is the differential: the hook `verif_audit` (pointer ranges of every i2t string vs. the key's own buffers) and the full content of every safely readable store are compared with the model after every operation of every history.",
-    "level_note": "Trusted: the ownership model's reading of std (HashMap/Vec/BTreeSet moves never move Box<str> buffers; derive(Clone) is field-wise) and of mownstr 0.3.1 (Clone of a borrowed MownStr copies the pointer); allocation ids are never reused in the model (a real allocator may reuse an address; a pointer into released memory is dangling all the same); tools/extractors/c10.py (exact-text recognition of ensure_index, the two Clone shapes, from_term_ref, ensure_owned; anything else fails closed); the hook's pointer arithmetic. A store whose audit reports an outside pointer is never read by the checker (no UB inside the check): there the evidence is the model's prediction + the audit vector. Lookups in the model compare key CONTENT (Term::eq), hashing is abstracted. clone_independent states content equality modulo Term::eq (language-tag case), exact equality would need key uniqueness (C01's I2) carried through the heap model. 16-bit index-full is modelled (key dropped again) but exercised only by C01. Miri/ASan are not part of the verdict. No native_decide. Known finding while unrepaired: C10-derive-clone-borrows-original.",
+    "level_note": "Trusted: the ownership model's reading of std (HashMap/Vec/BTreeSet moves never move Box<str> buffers; derive(Clone) is field-wise) and of mownstr 0.3.1 (Clone of a borrowed MownStr copies the pointer); allocation ids are never reused in the model (a real allocator may reuse an address; a pointer into released memory is dangling all the same); tools/extractors/c10.py (exact-text recognition of ensure_index, the two Clone shapes, from_term_ref, ensure_owned; anything else fails closed); the hook's pointer arithmetic. While /repo lacks the hook (notes/hooks/C10-audit.diff not yet committed; replies say audit=unavailable and the evidence counter oracle.audit_hook_ABSENT__… is set) the Rust side can only observe buffer sharing between two live stores through the public API and skips every store that has a dropped clone-ancestor: the defect is then established by the kernel-checked witness + that aliasing observation, and a repaired tree is exercised less. A store whose audit reports an outside pointer is never read by the checker (no UB inside the check): there the evidence is the model's prediction + the audit vector. Lookups in the model compare key CONTENT (Term::eq), hashing is abstracted. clone_independent states content equality modulo Term::eq (language-tag case), exact equality would need key uniqueness (C01's I2) carried through the heap model. 16-bit index-full is modelled (key dropped again) but exercised only by C01. Miri/ASan are not part of the verdict. No native_decide. Known finding while unrepaired: C10-derive-clone-borrows-original.",
     "tables": ["clone_kind"],
     "lean_targets": ["SophiaProofs.Props.C10", "SophiaProofs.Audit.C10"],
-    "theorems": ["winv_init", "sc_preserved", "winv_self_contained", "audit_clean_self_contained", "no_dangling", "read_after_history", "clone_same_content", "clone_same_quads", "clone_independent", "clone_independent_run", "derive_clone_dangles", "derive_not_safe", "c10_holds", "c10_verdict", "unwrap_unchecked_safe", "unwrap_unchecked_safe_gen", "ensure_owned_sound"],
+    "theorems": ["winv_init", "sc_preserved", "winv_self_contained", "audit_clean_self_contained", "no_dangling", "read_after_history", "clone_same_content", "clone_same_quads", "clone_independent", "clone_independent_run", "derive_clone_dangles", "derive_not_safe", "no_dangling_partial", "c10_holds", "c10_verdict", "unwrap_unchecked_safe", "unwrap_unchecked_safe_gen", "ensure_owned_sound"],
     "native_ok": [],
     "trivial_re": r"^$",
     "rule": "one request = one self-contained history over up to six named stores: the kernel-checked 3-step witness; per store type (Light/Fast x dataset/graph x u32/u16, bare SimpleTermIndex u32/u16) scripted patterns (insert 100, clone, drop original, read clone; clone dropped first; swap then drop either side; clone_from over a non-empty target; mem::take / Box / move / chains of clones losing their links one by one) and growth histories crossing the hash table's 2^k thresholds before and after cloning on original and clone (100..600 terms quick, ..2000 thorough; literal / IRI / owned quoted-triple / language-tagged keys); plus random histories (6..32 ops quick, ..60 thorough) over ins/rem/ens/fill/clone/clone_from/drop/swap/mv/box/take/all with terms from small colliding alphabets (empty strings, nested quoted triples, case-variant tags); after EVERY op, for EVERY live store: audit vector (hook) and content digest (only stores safe to read) vs. the model, content vs. a value-semantics specification; distinct = distinct histories",
